@@ -229,6 +229,13 @@ func runC14Driver(c bson.D, x *Ctx) (err error) {
 	overlap := projPathsOverlap(proj)
 	// Find with projection, twice
 	r1, e1 := findDocs(coll, bson.D{}, options.Find().SetProjection(proj))
+	if overlap {
+		// lungo merges operator results in map order: repeat so that an
+		// order-dependent write into the stored documents shows reliably
+		for i := 0; i < 7; i++ {
+			_, _ = findDocs(coll, bson.D{}, options.Find().SetProjection(proj))
+		}
+	}
 	mid, e := dump()
 	if e != nil {
 		return e
